@@ -9,9 +9,9 @@ The abstract model keeps what property C07 talks about and nothing else: per end
 watermark) and the outbound journal as a list `number ↦ application payload | session-level row`; frames are
 `number + kind`.  Its step function `astep` is a plain case analysis (no exceptions, no strings).
 
-`Lemmas/LinkSim*.lean` prove that `absLink` commutes with the step functions on well-formed states
-(`absLink (step l ev) = astep (absLink l) (absEv ev)`); `Lemmas/LinkInv*.lean` prove the invariants on the
-abstract model.  Both models are executable: the driver command `sched.link-abscheck` tests the commutation and
+`Lemmas/LinkStepSim.lean` (`step_sim`) proves that `absLink` commutes with the step functions on well-formed states
+(`absLink (step l ev) = astep (absLink l) (absEv ev)`); `Lemmas/LinkSafe*.lean` / `LinkSync*.lean` prove the invariants on the
+abstract model.  Both models are executable: the driver command `sched.link-explore` tests the commutation and
 the candidate invariants on every state of the exhaustive exploration.
 -/
 namespace AsyncFix.Link
@@ -128,8 +128,10 @@ def AConn.serve (c : AConn) (b : Int) : AConn × List AFrame :=
     let rows := c.out.filter fun r => b ≤ r.1 && r.1 ≤ sysMaxsize
     let c0 := { c with out := c.out.filter fun r => r.1 < b }
     let (c1, fs, gfb) := resendRows rows b c0 []
-    if gfb < c.o then
-      let (c2, f) := c1.pushAt gfb (.gapFill c.o)
+    -- trailing gap fill up to `min(EndSeqNo + 1, next_num_out)` with EndSeqNo = sys.maxsize (fix da179c4)
+    let top := min (sysMaxsize + 1) c.o
+    if gfb < top then
+      let (c2, f) := c1.pushAt gfb (.gapFill top)
       (c2, fs ++ [f])
     else (c1, fs)
 
